@@ -1183,7 +1183,7 @@ fn generate(ctx: &Ctx) {
     // PROBE-BEGIN (development only)
     let nums = |k: &str| -> Vec<u8> { pr.split(';').find_map(|kv| kv.strip_prefix(k)).map(|v| v.split(',').filter_map(|x| x.parse().ok()).collect()).unwrap_or_default() };
     let t = std::time::Instant::now();
-    run_part(ctx, "probe", 9, universe(&nums("inits="), &nums("mids="), &[], &two, &nums("rels="), &nums("sids="), false), None);
+    run_part(ctx, "probe", 9, universe(&nums("inits="), &nums("mids="), &[], &nums("scopes="), &nums("rels="), &nums("sids="), false), None);
     eprintln!("probe wall {:.1}s", t.elapsed().as_secs_f64());
     return;
     // PROBE-END
